@@ -10,10 +10,10 @@ namespace CV.Range
 
 /-- **C06**: for every message, `into_compressed` returns exactly `RangeSpec.words`. -/
 theorem C06_range_words_eq_spec {Sym : Type} {c : Cfg} (hc : RValid c) (msg : List (MStep Sym))
-    (hv : ∀ x ∈ msg, x.Valid c) :
+    (hn : MsgFits c msg.length) (hv : ∀ x ∈ msg, x.Valid c) :
     ∃ e, encodeMsg c (Encoder.empty c) msg = .ok e ∧
       intoCompressed c e = .ok (RangeSpec.words c.W c.S (msg.map MStep.spec)) := by
-  obtain ⟨e, he, _, hw⟩ := words_eq_spec hc msg hv
+  obtain ⟨e, he, _, _, hw⟩ := words_eq_spec hc msg hn hv
   exact ⟨e, he, hw⟩
 
 /-- sealing any state that satisfies the invariant (reachable or not, also while words are
@@ -25,13 +25,15 @@ theorem C06_range_seal_conforms {c : Cfg} (hc : RValid c) {e : Encoder} (hI : In
 
 /-- a whole message refines the reference run -/
 theorem C06_range_run_refines {Sym : Type} {c : Cfg} (hc : RValid c) (msg : List (MStep Sym))
-    (hv : ∀ x ∈ msg, x.Valid c) :
+    (hn : MsgFits c msg.length) (hv : ∀ x ∈ msg, x.Valid c) :
     ∃ e, encodeMsg c (Encoder.empty c) msg = .ok e ∧
       absE c e = RangeSpec.run c.W c.S (RangeSpec.init c.S) (msg.map MStep.spec) := by
-  obtain ⟨e, he, _, habs, _⟩ := encodeMsg_ok msg (Encoder.empty c) (inv_empty hc) hv
+  obtain ⟨e, he, _, _, habs, _⟩ :=
+    encodeMsg_ok msg (Encoder.empty c) (inv_empty hc) (fits_empty hn) hv
   exact ⟨e, he, by rw [habs, absE_empty]⟩
 
 example : RValid exCfg := exCfg_valid
+example : MsgFits exCfg exMsg.length := by decide
 example : ∀ x ∈ exMsg, x.Valid exCfg := exMsg_valid
 example : RangeSpec.words 8 16 (exMsg.map MStep.spec) = [127, 29, 86] := by decide
 example : Inv exCfg exInverted ∧ exInverted.range ≠ maxState exCfg := ⟨exInverted_inv, by decide⟩
